@@ -56,20 +56,23 @@ def limit_df(df, fs, start=None, stop=None, reset_indices=True):
 
     center_e, side_e = get_extrema_df(df)
 
-    df = df[df['sample_last_' + side_e].values >= start*fs]
+    # Sample times are sample / fs: compare times with the limits (fs * limit need not reproduce a sample exactly)
+    df = df[df['sample_last_' + side_e].values / fs >= start]
 
     if stop is not None:
-        df = df[df['sample_next_' + side_e].values <= stop*fs]
+        df = df[df['sample_next_' + side_e].values / fs <= stop]
 
-    # Shift sample indices to start at 0
+    # Shift sample indices to start at 0, the first sample at or after the start time
     if reset_indices:
-        df['sample_last_' + side_e] = df['sample_last_' + side_e] - int(fs * start)
-        df['sample_next_' + side_e] = df['sample_next_' + side_e] - int(fs * start)
-        df['sample_' + center_e] = df['sample_' + center_e] - int(fs * start)
-        df['sample_zerox_rise'] = df['sample_zerox_rise'] - int(fs * start)
-        df['sample_zerox_decay'] = df['sample_zerox_decay'] - int(fs * start)
+        samp_start = int(fs * start)
+        samp_start = samp_start + 1 if samp_start / fs < start else samp_start
+        df['sample_last_' + side_e] = df['sample_last_' + side_e] - samp_start
+        df['sample_next_' + side_e] = df['sample_next_' + side_e] - samp_start
+        df['sample_' + center_e] = df['sample_' + center_e] - samp_start
+        df['sample_zerox_rise'] = df['sample_zerox_rise'] - samp_start
+        df['sample_zerox_decay'] = df['sample_zerox_decay'] - samp_start
         last_zerox = 'sample_last_zerox_decay' if center_e == 'peak' else 'sample_last_zerox_rise'
-        df[last_zerox] = df[last_zerox] - int(fs * start)
+        df[last_zerox] = df[last_zerox] - samp_start
 
     return df
 
